@@ -31,6 +31,67 @@ def _is_zero(e):
     return c is not None and c[1] not in ('inf', '-inf', 'nan') and float(c[1]) == 0.0
 
 
+
+def canon_result_form(fnode, result='__result'):
+    """bring a handler into the single-result form the table rules read (on a copy):
+         if C: return A                      if C: r = A
+         <rest> return B            ->       else: <rest> r = B
+                                             return r
+       and a test on the truth of `node.X` / `len(node.X) > 0` is turned round: `if not node.X: <else arm> else: <then arm>`;
+       `r = [c] * len(S)` is the loop `for _ in S: r.append(c)`."""
+    import copy
+    fn = copy.deepcopy(fnode)
+
+    def to_assign(stmts):
+        out = []
+        for x in stmts:
+            if isinstance(x, ast.Return) and x.value is not None:
+                out.append(ast.copy_location(ast.Assign(targets=[ast.Name(id=result, ctx=ast.Store())], value=x.value), x))
+            elif isinstance(x, ast.If):
+                x.body = to_assign(x.body)
+                x.orelse = to_assign(x.orelse)
+                out.append(x)
+            else:
+                out.append(x)
+        return out
+    for k, st in enumerate(fn.body):
+        if isinstance(st, ast.If):
+            rest = fn.body[k + 1:]
+            if not st.orelse and st.body and isinstance(st.body[-1], ast.Return) and rest and isinstance(rest[-1], ast.Return) \
+                    and not any(isinstance(n, ast.Return) for x in rest[:-1] for n in ast.walk(x)):
+                st.orelse = rest
+                st.body = to_assign(st.body)
+                st.orelse = to_assign(st.orelse)
+                ret = ast.copy_location(ast.Return(value=ast.Name(id=result, ctx=ast.Load())), rest[-1])
+                fn.body = fn.body[:k] + [st, ret]
+            t = st.test
+            positive = None
+            if isinstance(t, ast.Attribute):
+                positive = t
+            elif isinstance(t, ast.Compare) and len(t.ops) == 1 and isinstance(t.left, ast.Call) and getattr(t.left.func, 'id', None) == 'len' and len(t.left.args) == 1 \
+                    and ((isinstance(t.ops[0], (ast.Gt, ast.NotEq)) and ast.unparse(t.comparators[0]) == '0') or (isinstance(t.ops[0], ast.GtE) and ast.unparse(t.comparators[0]) == '1')):
+                positive = t.left.args[0]
+            if positive is not None and st.orelse:
+                st.test = ast.copy_location(ast.UnaryOp(op=ast.Not(), operand=positive), t)
+                st.body, st.orelse = st.orelse, st.body
+            break
+    # r = [c] * len(S)  ->  r = []; for _ in S: r.append(c)
+    class Rep(ast.NodeTransformer):
+        def visit_Assign(self, n):
+            v = n.value
+            if len(n.targets) == 1 and isinstance(n.targets[0], ast.Name) and isinstance(v, ast.BinOp) and isinstance(v.op, ast.Mult):
+                l, r = v.left, v.right
+                if isinstance(r, ast.List):
+                    l, r = r, l
+                if isinstance(l, ast.List) and len(l.elts) == 1 and isinstance(r, ast.Call) and getattr(r.func, 'id', None) == 'len' and len(r.args) == 1:
+                    comp = ast.ListComp(elt=l.elts[0], generators=[ast.comprehension(target=ast.Name(id='_', ctx=ast.Store()), iter=r.args[0], ifs=[], is_async=0)])
+                    return ast.copy_location(ast.Assign(targets=n.targets, value=comp), n)
+            return n
+    fn = Rep().visit(fn)
+    ast.fix_missing_locations(fn)
+    return fn
+
+
 def subst_kind(stmts):
     """what value a list of statements substitutes: ('inf', verdict expr) | ('zero',) | None"""
     for n in ast.walk(ast.Module(body=list(stmts), type_ignores=[])):
@@ -132,17 +193,24 @@ def relation_of(e, lname, rname, dname):
 
 def verdict_table(func_node, verdict_var, lname, rname, dname):
     """{comparison key: relation} from the if/elif chain assigning verdict_var"""
-    table = {}
-    for n in ast.walk(func_node):
-        if isinstance(n, ast.If):
-            keys = O.comparison_key(n.test)
-            if keys is None:
-                continue
-            for st in n.body:
-                if isinstance(st, ast.Assign) and isinstance(st.targets[0], ast.Name) and st.targets[0].id == verdict_var:
-                    rel = relation_of(st.value, lname, rname, dname)
-                    for k in keys:
-                        table[O.canon_cmp(k)] = rel if rel is not None else ('?' + ast.unparse(st.value)[:40])
+    def scan(var):
+        table = {}
+        for n in ast.walk(func_node):
+            if isinstance(n, ast.If):
+                keys = O.comparison_key(n.test)
+                if keys is None:
+                    continue
+                for st in n.body:
+                    if isinstance(st, ast.Assign) and isinstance(st.targets[0], ast.Name) and (st.targets[0].id == var if var else isinstance(st.value, (ast.Compare, ast.IfExp))):
+                        rel = relation_of(st.value, lname, rname, dname)
+                        for k in keys:
+                            if O.canon_cmp(k) not in table:            # Python takes the first arm that names an operator
+                                table[O.canon_cmp(k)] = rel if rel is not None else ('?' + ast.unparse(st.value)[:40])
+        return table
+    table = scan(verdict_var)
+    if not table:
+        # the verdict is whatever Boolean-valued local the arms of the chain assign: its name is the author's business
+        table = scan(None)
     return table
 
 
@@ -183,7 +251,8 @@ def check_offline_variant(ix, rep, mon):
         raise AnalysisError('%s: no call to the shared IA predicate base' % f.where)
     st, basef = base_call
     valname, satname = [e.id for e in st.targets[0].elts]
-    the_if = [s for s in f.node.body if isinstance(s, ast.If)]
+    fbody = canon_result_form(f.node).body
+    the_if = [s for s in fbody if isinstance(s, ast.If)]
     if len(the_if) != 1:
         raise AnalysisError('%s: expected exactly one sensitivity test' % f.where)
     the_if = the_if[0]
@@ -296,7 +365,11 @@ def check_offline_base(ix, rep, basef, time, ref_table):
         loopv = None
         for n in ast.walk(basef.node):
             if isinstance(n, ast.For) and isinstance(n.target, ast.Tuple):
-                loopv = n.target.elts[1].id
+                loopv = n.target.elts[1].id           # for i, sample in enumerate(S)
+            elif isinstance(n, ast.For) and isinstance(n.target, ast.Name) and loopv is None:
+                loopv = n.target.id                     # for sample in S
+        if loopv is None:
+            raise AnalysisError('%s: no loop over the samples of the difference signal' % basef.where)
         check_verdict_table(rep, basef, 'sat_val', None, None, '%s[1]' % loopv, 'dense-offline')
 
 
